@@ -3,9 +3,12 @@ package main
 // gen.go — input generators for C02.  Every random choice comes from c.Rng.
 
 import (
+	"bytes"
 	"math/rand"
 
 	"github.com/256dpi/gomqtt/packet"
+
+	"verifh/hx"
 )
 
 var alphabet = []byte("ab/+#$ \x00\xff\xc3\xa9xyz01")
@@ -415,6 +418,58 @@ func (r *runner) boundaries() {
 	}
 }
 
+// ownership through the stream decoder: packets read one after the other through
+// packet.Decoder (whose buffers come from a sync.Pool and are reused) must keep their
+// values after the later reads
+func (r *runner) streams(n int) {
+	c := r.c
+	rng := c.Rng
+	for i := 0; i < n; i++ {
+		k := 2 + rng.Intn(8)
+		var encs [][]byte
+		var all []byte
+		for j := 0; j < k; j++ {
+			t := packet.Type(1 + rng.Intn(14))
+			if rng.Intn(2) == 0 {
+				t = packet.PUBLISH
+			}
+			b, ok := encode(genPacket(rng, t, rng.Intn(30)))
+			if !ok {
+				continue
+			}
+			encs = append(encs, b)
+			all = append(all, b...)
+		}
+		dec := packet.NewDecoder(bytes.NewReader(all))
+		var pkts []packet.Generic
+		var texts []string
+		bad := ""
+		for j := range encs {
+			p, err := dec.Read()
+			if err != nil {
+				bad = "read_error_" + hx.Hx(encs[j])
+				break
+			}
+			pkts = append(pkts, p)
+			texts = append(texts, hx.PktText(p))
+		}
+		for j := range pkts {
+			if now := hx.PktText(pkts[j]); now != texts[j] {
+				bad = "packet_" + texts[j] + "_became_" + now
+			}
+			q, _ := packet.Type(encs[j][0] >> 4).New()
+			if _, err := q.Decode(encs[j]); err != nil || hx.PktText(q) != texts[j] {
+				bad = "stream_and_direct_decode_differ_" + hx.Hx(encs[j])
+			}
+		}
+		c.Stat("stream_ownership_checks", len(pkts))
+		if bad != "" {
+			c.Emit("direct stream_ownership FAIL case=stream%d stream=%s %s", i, hx.Hx(all), bad)
+			c.Stat("ownership_fail", 1)
+		}
+	}
+}
+
 func generate(r *runner) {
 	c := r.c
 	rng := c.Rng
@@ -431,7 +486,7 @@ func generate(r *runner) {
 		}
 	}
 	// structured packets of every type and all their mutations
-	rounds := 4
+	rounds := 3
 	if c.Thorough() {
 		rounds = 16
 	}
@@ -473,6 +528,9 @@ func generate(r *runner) {
 	r.randomBytes(n)
 	r.boundaries()
 	if c.Thorough() {
+		r.streams(3000)
 		r.exhaustive3()
+	} else {
+		r.streams(300)
 	}
 }
